@@ -574,6 +574,46 @@ func Run(t *testing.T, cfg Config, prefix []int, mk func(s *Sched) Env) (x *Exec
 	return x
 }
 
+// IsFree reports whether the execution runs free (no scheduling).
+func (s *Sched) IsFree() bool { return s.free.Load() }
+
+// RunFree executes the scenario with the scheduler absent: threads are
+// registered but never parked, goroutines run as the Go runtime schedules
+// them (inside a bubble, so time is still virtual). Used by the auxiliary
+// race-detector pass; nothing is enumerated here.
+func RunFree(t *testing.T, cfg Config, mk func(s *Sched) Env) (x *Exec) {
+	x = &Exec{}
+	s := &Sched{cfg: cfg, exec: x}
+	defer func() {
+		active.Store(nil)
+		if r := recover(); r != nil {
+			if strings.Contains(fmt.Sprint(r), "deadlock:") {
+				x.BubbleDeadlock = true
+				return
+			}
+			panic(r)
+		}
+	}()
+	synctest.Test(t, func(t *testing.T) {
+		s.arrive = make(chan struct{}, 1)
+		s.start = time.Now()
+		s.free.Store(true)
+		active.Store(s)
+		s.env = mk(s)
+		for s.Now() < cfg.Horizon {
+			time.Sleep(50 * time.Millisecond)
+			synctest.Wait()
+			s.collect()
+			if s.env.Quiescent(s) {
+				break
+			}
+		}
+		x.End = "free"
+		s.finish()
+	})
+	return x
+}
+
 func (s *Sched) loop() {
 	x := s.exec
 	horizon := time.NewTimer(s.cfg.Horizon)
